@@ -135,7 +135,8 @@ contract("parglare.parser.Parser._lexical_disambiguation",
          requires=["not self.debug",
                    "forall(0, len(tokens), lambda i: live(tokens[i]))"],
          ensures=[
-             "implies(len(tokens) <= 1, result == tokens)",
+             # (zero or one candidate: returned as they are -- the same list or a copy, not specified)
+             "implies(len(tokens) <= 1, len(result) == len(tokens) and forall(0, len(tokens), lambda i: result[i] == tokens[i]))",
              "implies(len(tokens) > 1, len(result) >= 1)",
              # every survivor is one of the candidates and has maximal match length
              "implies(len(tokens) > 1, forall(0, len(result), lambda j: "
